@@ -462,3 +462,17 @@ pub(crate) fn publish_session(mut snap: SessionSnap) {
 pub fn session_snapshot() -> Option<SessionSnap> {
     SESSION.with(|s| s.borrow().clone())
 }
+
+thread_local! {
+    static LISTEN_ADDR: RefCell<Option<std::net::SocketAddr>> = RefCell::new(None);
+}
+
+/// The address the session's listener is bound to (ephemeral port under this feature), so that a
+/// harness can dial in over loopback.
+pub fn publish_listen_addr(addr: Option<std::net::SocketAddr>) {
+    LISTEN_ADDR.with(|a| *a.borrow_mut() = addr);
+}
+
+pub fn listen_addr() -> Option<std::net::SocketAddr> {
+    LISTEN_ADDR.with(|a| *a.borrow())
+}
